@@ -33,7 +33,9 @@ Record facts := {
   ctor_guard_xx : bool;          (* neither is 0 *)
   ctor_date : date_pass;
   method_zero_branch : bool;     (* some branch of the method can single out latitude 0 or longitude 0 *)
-  default_date_frozen : bool     (* the default of magnetic_field's date parameter is a call evaluated at import *)
+  default_date_frozen : bool;    (* the default of magnetic_field's date parameter is a call evaluated at import *)
+  no_hidden_state : bool         (* no instance / class / module level state besides the declared attributes is written by one
+                                    public method or property and read by another (no memoisation, no shared cache) *)
 }.
 
 (* the numeric content of the class, abstract: every theorem below holds for every `world` *)
@@ -49,7 +51,8 @@ Record world := {
   w_today : w_Date;                        (* wall clock *)
   w_coef0 : w_Coef;                        (* attribute content before any load (none) *)
   w_lat0 : w_Place -> bool;                (* latitude == 0 *)
-  w_lon0 : w_Place -> bool                 (* longitude == 0 *)
+  w_lon0 : w_Place -> bool;                (* longitude == 0 *)
+  w_stale : option w_Elem -> option w_Elem (* what a reader would see through an undeclared cache, if there were one *)
 }.
 
 Section Object.
@@ -68,6 +71,13 @@ Section Object.
 
   Definition denormalize_coefficients (st : state) : state :=
     {| coef := if denorm_in_place fx then scale (coef st) else coef st; sdate := sdate st; sframe := sframe st; answer := answer st |}.
+
+  (* assigning w.frame between calls *)
+  Definition set_frame (st : state) (fr : Frame) : state :=
+    {| coef := coef st; sdate := sdate st; sframe := fr; answer := answer st |}.
+
+  (* what the readers (the attributes X..GV, the magnetic_elements dictionary, geodetic_vector) show *)
+  Definition observe (st : state) : option Elem := if no_hidden_state fx then answer st else w_stale w (answer st).
 
   Definition reloads (od : option Date) : bool :=
     match od with Some _ => field_reloads_if_date fx | None => field_reloads_if_none fx end.
@@ -105,7 +115,7 @@ Section Object.
   (* what the property demands: a function of (date, place, frame) alone *)
   Definition pure (d : Date) (p : Place) (fr : Frame) : Elem := synth (scale (load (file_of d))) d p fr.
 
-  Inductive call := Field (p : Place) (od : option Date) | Reset (d : Date) | Denorm.
+  Inductive call := Field (p : Place) (od : option Date) | Reset (d : Date) | Denorm | SetFrame (fr : Frame).
 
   (* answers of the Field calls of a sequence, in order *)
   Fixpoint run (st : state) (cs : list call) : list Elem :=
@@ -114,6 +124,7 @@ Section Object.
     | Field p od :: r => let '(st', e) := field st p od in e :: run st' r
     | Reset d :: r => run (reset_coefficients st d) r
     | Denorm :: r => run (denormalize_coefficients st) r
+    | SetFrame fr :: r => run (set_frame st fr) r
     end.
 
   Fixpoint final (st : state) (cs : list call) : state :=
@@ -122,15 +133,17 @@ Section Object.
     | Field p od :: r => final (fst (field st p od)) r
     | Reset d :: r => final (reset_coefficients st d) r
     | Denorm :: r => final (denormalize_coefficients st) r
+    | SetFrame fr :: r => final (set_frame st fr) r
     end.
 
-  (* the specification of a run: only the object's date is carried along *)
+  (* the specification of a run: only the object's date and frame are carried along *)
   Fixpoint spec (d : Date) (fr : Frame) (cs : list call) : list Elem :=
     match cs with
     | [] => []
     | Field p od :: r => let d' := match od with Some x => x | None => d end in pure d' p fr :: spec d' fr r
     | Reset d' :: r => spec d' fr r
     | Denorm :: r => spec d fr r
+    | SetFrame fr' :: r => spec d fr' r
     end.
 
   Definition all_fields_reload (cs : list call) : Prop := forall p od, In (Field p od) cs -> reloads od = true.
@@ -149,11 +162,12 @@ Section Object.
   Proof.
     intros Hr Hz cs. induction cs as [|c r IH]; intros st Hall; [reflexivity|].
     assert (Hrest : all_fields_reload r) by (intros p od Hin; apply (Hall p od); right; exact Hin).
-    destruct c as [p od|d|].
+    destruct c as [p od|d| |fr'].
     - assert (Hl : reloads od = true) by (apply (Hall p od); left; reflexivity).
       destruct (field_reloading st p od Hr Hz Hl) as (Ha & Hd & Hf).
       cbn [run spec]. destruct (field st p od) as [st' e] eqn:E. cbn [fst snd] in *.
       rewrite (IH st' Hrest), Hd, Hf, Ha. reflexivity.
+    - cbn [run spec]. rewrite (IH _ Hrest). reflexivity.
     - cbn [run spec]. rewrite (IH _ Hrest). reflexivity.
     - cbn [run spec]. rewrite (IH _ Hrest). reflexivity.
   Qed.
@@ -165,19 +179,28 @@ Section Object.
     | Field _ od :: r => date_after (match od with Some x => x | None => d end) r
     | Reset d' :: r => date_after d' r
     | Denorm :: r => date_after d r
+    | SetFrame _ :: r => date_after d r
     end.
 
-  Lemma spec_app d fr cs1 cs2 : spec d fr (cs1 ++ cs2) = spec d fr cs1 ++ spec (date_after d cs1) fr cs2.
+  Fixpoint frame_after (fr : Frame) (cs : list call) : Frame :=
+    match cs with
+    | [] => fr
+    | SetFrame fr' :: r => frame_after fr' r
+    | _ :: r => frame_after fr r
+    end.
+
+  Lemma spec_app d fr cs1 cs2 :
+    spec d fr (cs1 ++ cs2) = spec d fr cs1 ++ spec (date_after d cs1) (frame_after fr cs1) cs2.
   Proof.
-    revert d. induction cs1 as [|c r IH]; intros d; [reflexivity|].
-    destruct c as [p od|d'|]; cbn [app spec date_after]; rewrite IH; reflexivity.
+    revert d fr. induction cs1 as [|c r IH]; intros d fr; [reflexivity|].
+    destruct c as [p od|d'| |fr']; cbn [app spec date_after frame_after]; rewrite IH; reflexivity.
   Qed.
 
   (* the k-th answer, after ANY history on ANY object of the same frame, is the answer of a fresh evaluation *)
   Corollary last_answer_independent : reset_reloads fx = true -> method_zero_branch fx = false ->
     forall pre st p od dflt, all_fields_reload pre -> reloads od = true ->
     last (run st (pre ++ [Field p od])) dflt =
-      pure (match od with Some x => x | None => date_after (sdate st) pre end) p (sframe st).
+      pure (match od with Some x => x | None => date_after (sdate st) pre end) p (frame_after (sframe st) pre).
   Proof.
     intros Hr Hz pre st p od dflt Hp Ho.
     rewrite history_independent; auto.
@@ -194,6 +217,20 @@ Section Object.
     destruct (ctor_arg od (given od)) as [x|]; cbn.
     - rewrite Hd. cbn. rewrite Hr. reflexivity.
     - destruct (field_reloads_if_none fx); cbn; rewrite ?Hr; reflexivity.
+  Qed.
+
+  (* the readers show the stored answer: nothing else is remembered *)
+  Theorem observe_is_answer st : no_hidden_state fx = true -> observe st = answer st.
+  Proof. intros H. unfold observe. rewrite H. reflexivity. Qed.
+
+  (* changing only the frame and asking again gives the pure answer of the new frame *)
+  Theorem frame_switch_requery st p d fr' : reset_reloads fx = true -> method_zero_branch fx = false ->
+    field_reloads_if_date fx = true -> no_hidden_state fx = true ->
+    let st1 := fst (field st p (Some d)) in let st2 := fst (field (set_frame st1 fr') p (Some d)) in
+    observe st1 = Some (pure d p (sframe st)) /\ observe st2 = Some (pure d p fr').
+  Proof.
+    intros Hr Hz Hd Hn. cbn zeta. rewrite !observe_is_answer by exact Hn.
+    unfold field, special, pure, set_frame. rewrite Hz. cbn. rewrite Hd. cbn. rewrite Hr. split; reflexivity.
   Qed.
 
   Theorem ctor_skips od p fr : ctor_guard p = false -> answer (new od p fr) = None.
@@ -251,11 +288,12 @@ Definition xworld : world := {|
   w_Date := nat; w_Place := xplace; w_Frame := bool; w_File := nat; w_Coef := xcoef; w_Elem := xelem;
   w_file_of := fun d => d; w_load := fun f => (f, 0); w_scale := fun c => (fst c, S (snd c));
   w_synth := xsynth 0; w_synth0 := xsynth 1; w_cal := fun d => d + 1000; w_dec := fun d => d + 2000; w_today := 999;
-  w_coef0 := (0, 77); w_lat0 := fun p => snd (fst p); w_lon0 := fun p => snd p |}.
+  w_coef0 := (0, 77); w_lat0 := fun p => snd (fst p); w_lon0 := fun p => snd p; w_stale := fun _ => Some [77] |}.
 Definition xcall := call xworld.
 Definition XField (p : xplace) (od : option nat) : xcall := Field xworld p od.
 Definition XReset (d : nat) : xcall := Reset xworld d.
 Definition XDenorm : xcall := Denorm xworld.
+Definition XSetFrame (fr : bool) : xcall := SetFrame xworld fr.
 
 (* per Field call: reloaded? :: answer; for the other calls an empty row *)
 Fixpoint xrun (fx : facts) (st : state xworld) (cs : list xcall) : list (list nat) :=
@@ -264,6 +302,7 @@ Fixpoint xrun (fx : facts) (st : state xworld) (cs : list xcall) : list (list na
   | Field _ p od :: r => let '(st', e) := field xworld fx st p od in (b2n (reloads xworld fx od) :: e) :: xrun fx st' r
   | Reset _ d :: r => [] :: xrun fx (reset_coefficients xworld fx st d) r
   | Denorm _ :: r => [] :: xrun fx (denormalize_coefficients xworld fx st) r
+  | SetFrame _ fr :: r => [] :: xrun fx (set_frame xworld st fr) r
   end.
 
 (* a whole session: constructor, then calls.  First row: the constructor's answer ([] if it computed nothing) *)
